@@ -9,7 +9,7 @@
 EXTENDS Options, DateTimeArith, Duration
 
 OpsAll == {"PlainDate.until", "PlainDate.since", "PlainTime.until", "PlainTime.since", "PlainDateTime.until", "PlainDateTime.since",
-           "Instant.until", "Instant.since", "PlainYearMonth.until", "PlainYearMonth.since",
+           "Instant.until", "Instant.since", "PlainYearMonth.until", "PlainYearMonth.since", "ZonedDateTime.until", "ZonedDateTime.since",
            "Duration.round", "PlainDateTime.round", "PlainTime.round", "Instant.round"}
 UnitOpts == UnitSet \cup {Absent, "auto"}
 CONSTANTS Ops, Incs, ModeOpts
@@ -19,9 +19,10 @@ None == [op |-> "none"]
 \* (smallestUnit "auto" is enumerated too: it must be rejected everywhere)
 Init == cell \in [op : Ops, lg : UnitOpts, sm : UnitOpts, inc : Incs] /\ last = None
 
-IsSince(op) == op \in {"PlainDate.since", "PlainTime.since", "PlainDateTime.since", "Instant.since", "PlainYearMonth.since"}
+IsSince(op) == op \in {"PlainDate.since", "PlainTime.since", "PlainDateTime.since", "Instant.since", "PlainYearMonth.since", "ZonedDateTime.since"}
 TypeOf(op) == CASE op \in {"PlainDate.until", "PlainDate.since"} -> "PlainDate" [] op \in {"PlainTime.until", "PlainTime.since"} -> "PlainTime"
                 [] op \in {"PlainDateTime.until", "PlainDateTime.since"} -> "PlainDateTime" [] op \in {"Instant.until", "Instant.since"} -> "Instant"
+                [] op \in {"ZonedDateTime.until", "ZonedDateTime.since"} -> "ZonedDateTime"
                 [] OTHER -> "PlainYearMonth"
 \* the duration rounded by Duration.round always has days as its largest unit (existing largest unit day)
 ResolveCell(c, mode) ==
@@ -57,9 +58,11 @@ DefaultDur == Dur10(Zero, Zero, Zero, FromInt(1), FromInt(1), FromInt(36), FromI
 DTJ(x) == [y |-> x.date.y, m |-> x.date.m, d |-> x.date.d, h |-> x.time.h, mi |-> x.time.mi, s |-> x.time.s, ms |-> x.time.ms, us |-> x.time.us, ns |-> x.time.ns]
 \* the operands of a cell (defaults when the options are rejected: the call must fail before looking at them)
 Rz(r) == IF r.kind = "ok" THEN r ELSE [kind |-> "ok", largest |-> "hour", smallest |-> "nanosecond", inc |-> 1, mode |-> "trunc"]
+ZonedOps == {"ZonedDateTime.until", "ZonedDateTime.since"}
 Operands(c, r) ==
   CASE c.op \in {"PlainTime.until", "PlainTime.since"} -> [a |-> TA, b |-> TimeB(Rz(r))]
     [] c.op \in {"Instant.until", "Instant.since"} -> [a |-> IA, b |-> InstB(Rz(r))]
+    [] c.op \in ZonedOps -> [a |-> IA, b |-> InstB(Rz(r)), oz |-> FALSE]      \* both in UTC; oz: the argument is in +01:00 instead
     [] c.op = "PlainTime.round" -> [a |-> TieTime(Rz(r))]
     [] c.op = "Instant.round" -> [a |-> TieInst(Rz(r))]
     [] c.op = "PlainDateTime.round" -> [a |-> DTJ(TieDT(Rz(r)))]
@@ -72,6 +75,8 @@ ExpectedOut(c, r) ==
   IF r.kind # "ok" THEN r
   ELSE CASE c.op \in {"PlainTime.until", "PlainTime.since"} -> PlainTimeDiff(TA, TimeB(r), r.largest, r.smallest, r.inc, IF IsSince(c.op) THEN NegateMode(r.mode) ELSE r.mode, IsSince(c.op))
          [] c.op \in {"Instant.until", "Instant.since"} -> InstantDiff(IA, InstB(r), r.largest, r.smallest, r.inc, IF IsSince(c.op) THEN NegateMode(r.mode) ELSE r.mode, IsSince(c.op))
+         \* a zoned difference with a time largest unit is the difference of the two instants, whatever the zones
+         [] c.op \in ZonedOps /\ r.largest \in TimeUnits -> InstantDiff(IA, InstB(r), r.largest, r.smallest, r.inc, IF IsSince(c.op) THEN NegateMode(r.mode) ELSE r.mode, IsSince(c.op))
          [] c.op = "PlainTime.round" -> PlainTimeRound(TieTime(r), r.smallest, r.inc, r.mode)
          [] c.op = "Instant.round" -> InstantRound(TieInst(r), r.smallest, r.inc, r.mode)
          [] c.op = "PlainDateTime.round" -> LET o == RoundDT(TieDT(r), r.smallest, r.inc, r.mode) IN Ok(DTJ(o.val))
@@ -99,6 +104,14 @@ StepSame == /\ last = None /\ cell.op \in DifferenceOps
                IN last' = [op |-> cell.op, mode |-> Absent, res |-> r, out |-> IF r.kind = "ok" THEN Ok(ZeroDur) ELSE r,
                            operands |-> IF "b" \in DOMAIN o THEN [a |-> o.a, b |-> o.a] ELSE o, same |-> TRUE]
             /\ UNCHANGED cell
+\* ZonedDateTime.until / since with the argument in ANOTHER time zone: the *resolved* largest unit decides - a date unit (given, or reached
+\* through the default largestUnit = max(hour, smallestUnit)) is a RangeError, a time unit gives the instants' difference
+StepOtherZone == /\ last = None /\ cell.op \in ZonedOps
+                 /\ LET r == ResolveCell(cell, Absent)
+                    IN last' = [op |-> cell.op, mode |-> Absent, res |-> r,
+                                out |-> IF r.kind # "ok" THEN r ELSE IF r.largest \in DateUnits THEN ErrRange ELSE ExpectedOut(cell, r),
+                                operands |-> [Operands(cell, r) EXCEPT !.oz = TRUE], same |-> FALSE]
+                 /\ UNCHANGED cell
 \* PlainDateTime.until / since between two times of the SAME calendar date: the options are those of a date-time difference all the same
 \* (date units are valid largest and smallest units; the default largest unit is day)
 DASame == DT(Date(2020, 1, 15), Time(3, 36, 36, 600, 600, 600))
@@ -127,7 +140,7 @@ UnitPlus(u, n) == IF n = -1 \/ UnitIndex(u) + n > Len(Units) \/ UnitIndex(u) + n
 TableUnitAdd(u, n) == /\ last = None /\ cell = AnchorCell
                       /\ last' = [op |-> "table.unitAdd", mode |-> Absent, res |-> [kind |-> "ok"], out |-> Ok(UnitPlus(u, n)), operands |-> [unit |-> u, n |-> n], same |-> FALSE]
                       /\ UNCHANGED cell
-Next == (\E mode \in ModeOpts : Step(mode)) \/ StepSame \/ StepSameDate \/ (\E u \in UnitSet \cup {"auto"}, n \in {0, 1, 3, 10, 11, -1} : TableUnitAdd(u, n)) \/ (\E u \in UnitSet \cup {"auto"} : TableUnit(u)) \/ (\E m \in Modes : TableMode(m))
+Next == (\E mode \in ModeOpts : Step(mode)) \/ StepSame \/ StepSameDate \/ StepOtherZone \/ (\E u \in UnitSet \cup {"auto"}, n \in {0, 1, 3, 10, 11, -1} : TableUnitAdd(u, n)) \/ (\E u \in UnitSet \cup {"auto"} : TableUnit(u)) \/ (\E m \in Modes : TableMode(m))
 \* laws on the tables: negation is an involution that swaps the two signs' unsigned modes; the three unit classes partition as Temporal says
 TableLaws == /\ (last.op = "table.mode" => LET m == last.operands.mode IN
                     /\ NegateMode(NegateMode(m)) = m
